@@ -3517,6 +3517,10 @@ class _RequestUpOrDownloadResponse(
         cls: type[T_RequestUpOrDownloadResponse], pdu: bytes
     ) -> T_RequestUpOrDownloadResponse:
         length_format_identifier = pdu[1]
+
+        if len(pdu) != 2 + length_format_identifier // 2**4:
+            raise ValueError("The lengthFormatIdentifier is incompatible with the PDU size")
+
         max_number_of_block_length = from_bytes(pdu[2:])
         return cls(max_number_of_block_length, length_format_identifier)
 
